@@ -945,6 +945,18 @@ func genConsCase(r *Rand, tier string, w *bufio.Writer) {
 			emit("process %d %d", 0, 800000+n)
 		}
 		res := emit("process 0 %d", n)
+		if strings.HasPrefix(res, "ok") && builtFrame > 0 && epochOf(res) == curEpoch && r.Chance(1, 8) {
+			// fork twins of the event just accepted (same creator, seq and parents) that leave no trace (C07):
+			// one is only built, one is processed with a wrong frame and rejected; both open a new branch in the
+			// vector index before they are rolled back
+			if r.Chance(1, 2) {
+				emit("build 0 %d c=%d s=%d l=%d p=%s keep=0", 700000+n, creator, seq, maxL+1, pj)
+			}
+			if r.Chance(2, 3) {
+				emit("ev %d e=%d c=%d s=%d l=%d f=%d p=%s", 600000+n, curEpoch, creator, seq, maxL+1, builtFrame+1+uint64(r.Intn(2)), pj)
+				emit("process %d %d", 0, 600000+n)
+			}
+		}
 		builderEvents++
 		ge := gEvent{n, curEpoch, creator, seq, maxL + 1, parents}
 		all = append(all, ge)
